@@ -651,3 +651,33 @@ class gf_mouse:
         yield "always-handled", result == True  # noqa: E712
         yield "focus-follows-the-display-widget", _focus_follows(old, s, d)
         yield "cells-untouched", n_cells(s) == n_cells(old)
+
+
+# ------------------------------------------------------------------------------------------------ contents validation (C08)
+NEWITEM = Tup(WIDGET, Tup(Atom("given", "pack", "weight"), Opt(Int)))
+
+
+def _all_given(items, upto):
+    return forall(0, upto, lambda j: Q.seq_get(items, j)[1][0] == "given")
+
+
+@contract(GF + "GridFlow._contents_modified", property="C08", inline=GINL, replayable=False)
+class gf_contents_modified:
+    """The validator the contents list runs BEFORE it changes (set_validate_contents_modified): only `(widget, ('given', n))`
+    items may enter a GridFlow.  Items are modelled as well-formed (widget, (type, amount)) pairs; the TypeError /
+    ValueError handler for items of another form is not exercised."""
+    self_shape = GRIDFLOW
+    params = dict(_slc=Tup(Int, Int, Int), new_items=TupleOf(NEWITEM))
+    invariant = staticmethod(gf_inv)
+    raises = (_gf.GridFlowError,)
+
+    def ensures(old, s, a, result):
+        yield "accepted-only-when-every-new-item-has-a-given-width", _all_given(a.new_items, Q.seq_len(a.new_items))
+        yield "nothing-written", len([e for e in cur().trace if e[0] == "write"]) == 0
+        yield "returns-none", result is None
+
+    def on_raise(old, s, a, exc):
+        yield "rejected-only-when-some-new-item-has-no-given-width", neg(_all_given(a.new_items, Q.seq_len(a.new_items)))
+        yield "nothing-written", len([e for e in cur().trace if e[0] == "write"]) == 0
+
+    loops = {0: Loop(invariant=lambda v: _all_given(v.new_items, v.i_))}
